@@ -127,6 +127,7 @@ func TestCheck(t *testing.T) {
 		o.KeepPlainLeaf = true
 		o.UnionSecondFragment = true
 		o.UnionSelfFragment = true
+		o.AvoidTypes = map[string]bool{"Bag": true} // Bag is not federated
 		o.PNamed = 0.2
 		o.PDupAlias = 0.25
 		o.MaxDepth = 3 + r.Intn(3)
